@@ -7,16 +7,11 @@ Open Scope N_scope.
 
 (* ---------- small safe strings ---------- *)
 
-Lemma dec_aux_safe fuel n acc : safe acc -> safe (dec_aux fuel n acc).
-Proof.
-  revert n acc. induction fuel as [|fuel IH]; intros n acc Ha; cbn [dec_aux]; [assumption|].
-  assert (xprint (48 + n mod 10) = true) as Hd.
-  { pose proof (N.mod_lt n 10 ltac:(lia)). unfold xprint. lia. }
-  destruct (n / 10 =? 0); [|apply IH]; apply safe_cons; assumption.
-Qed.
+Lemma uint_digits_safe u : safe (uint_digits u).
+Proof. induction u; cbn [uint_digits]; [apply safe_nil|..]; (apply safe_cons; [reflexivity|assumption]). Qed.
 
 Lemma dec_of_N_safe n : safe (dec_of_N n).
-Proof. apply dec_aux_safe, safe_nil. Qed.
+Proof. apply uint_digits_safe. Qed.
 
 Lemma join_safe sep l : safe sep -> Forall safe l -> safe (join sep l).
 Proof.
@@ -98,6 +93,9 @@ Proof.
   apply IH, sw_write_byte_safe; assumption.
 Qed.
 
+Lemma sw_write_app' w a b : sw_write w (a ++ b) = sw_write (sw_write w a) b.
+Proof. unfold sw_write. apply fold_left_app. Qed.
+
 Lemma sw_separate_safe w : safe_w w -> safe_w (fst (sw_separate w)).
 Proof. intros [Ho Hl]. unfold sw_separate. cbn [fst]. destruct (sw_state w <? 2); split; assumption. Qed.
 
@@ -107,28 +105,35 @@ Proof.
   destruct lv; (split; [|exact He]); cbn; apply sw_write_safe; try assumption; apply escape_printable_safe.
 Qed.
 
-Lemma safe_l_out_write l s : safe s -> safe_l l -> safe_l (out_write l s).
-Proof. intros Hs [Ho He]. split; [|exact He]. cbn. apply sw_write_safe; assumption. Qed.
-
-Lemma safe_l_fold_write ws l : Forall safe ws -> safe_l l -> safe_l (fold_left out_write ws l).
+Lemma out_of_writes l ws w :
+  l_out (out_write (fold_left out_write ws l) w) = sw_write (l_out l) (concat ws ++ w) /\
+  l_err (out_write (fold_left out_write ws l) w) = l_err l /\
+  l_panicked (out_write (fold_left out_write ws l) w) = l_panicked l.
 Proof.
-  intro H. revert l. induction H as [|w ws Hw Hws IH]; intros l Hl; simpl; [assumption|].
-  apply IH, safe_l_out_write; assumption.
+  revert l. induction ws as [|x ws IH]; intro l; cbn [fold_left concat app].
+  - repeat split.
+  - destruct (IH (out_write l x)) as (H1 & H2 & H3). rewrite H1, H2, H3.
+    cbn. rewrite !sw_write_app'. repeat split.
+Qed.
+
+Lemma safe_l_writes l ws w : GL0 (concat ws ++ w) -> safe_l l -> safe_l (out_write (fold_left out_write ws l) w).
+Proof.
+  intros [Hs _] [Ho He]. destruct (out_of_writes l ws w) as (H1 & H2 & _). unfold safe_l. rewrite H1, H2.
+  split; [apply sw_write_safe; assumption|assumption].
 Qed.
 
 Theorem logger_output_safe o evs :
   safe (sw_out (l_out (log_run o evs))) /\ safe (sw_out (l_err (log_run o evs))).
 Proof.
   assert (safe_l (log_run o evs)) as [[H1 _] [H2 _]]; [|split; assumption].
-  apply (inv_run safe_l True); try (intros l v H; exact H).
-  - intros l ws w Hws Hw _ Hl. apply safe_l_out_write; [assumption|]. apply safe_l_fold_write; assumption.
+  apply (inv_run o safe_l True GL0 (fun _ _ _ _ => True)); try (intros l v H; exact H).
+  - intros l ws w. apply safe_l_writes.
   - intros l [Ho He]. unfold out_separate. pose proof (sw_separate_safe _ Ho) as H.
     destruct (sw_separate (l_out l)) as [w bad]. split; [exact H|exact He].
   - intros l s Hs [Ho He]. split; [exact Ho|]. cbn. apply sw_write_safe; assumption.
   - intros. apply safe_l_logf. assumption.
-  - apply summary_line_safe.
-  - apply summary_line_ends.
-  - left. exact I.
+  - intros. split; [apply summary_line_safe|apply summary_line_ends].
+  - apply Forall_forall. intros ev _. apply ev_ok_GL0. left. exact I.
   - repeat split; apply safe_nil.
 Qed.
 
@@ -159,14 +164,13 @@ Proof. revert l. induction ws as [|w ws IH]; intros l Hl; simpl; [assumption|]. 
 
 Lemma counts_ok_run o evs : counts_ok (log_run o evs).
 Proof.
-  apply (inv_run counts_ok True); try (intros l v H; exact H).
-  - intros l ws w _ _ _ Hl. apply (counts_ok_fold_write ws l) in Hl. exact Hl.
+  apply (inv_run o counts_ok True GL0 (fun _ _ _ _ => True)); try (intros l v H; exact H).
+  - intros l ws w _ Hl. apply (counts_ok_fold_write ws l) in Hl. exact Hl.
   - intros l H. unfold out_separate. destruct (sw_separate (l_out l)). exact H.
   - intros l s _ H. exact H.
   - intros. apply counts_ok_logf. assumption.
-  - apply summary_line_safe.
-  - apply summary_line_ends.
-  - left. exact I.
+  - intros. split; [apply summary_line_safe|apply summary_line_ends].
+  - apply Forall_forall. intros ev _. apply ev_ok_GL0. left. exact I.
   - repeat split.
 Qed.
 
@@ -235,7 +239,7 @@ Proof.
   destruct (sw_state (sw_write w p) =? 1); discriminate.
 Qed.
 
-Lemma panicked_fold_write ws l : l_panicked (fold_left out_write ws l) = l_panicked l.
+Lemma panicked_fold_write_unused ws l : l_panicked (fold_left out_write ws l) = l_panicked l.
 Proof. revert l. induction ws as [|w ws IH]; intro l; simpl; [reflexivity|]. rewrite IH. reflexivity. Qed.
 
 Lemma format_diag_ends o lv f n m : ends_nl (format_diag o lv f n m).
@@ -249,20 +253,19 @@ Qed.
 
 Lemma ok_run o evs : Forall wf_event evs -> ok (log_run o evs).
 Proof.
-  intro Hwf. apply (inv_run ok False); try (intros l v H; exact H).
+  intro Hwf. apply (inv_run o ok False GL0 (fun _ _ _ _ => True)); try (intros l v H; exact H).
   - intros l [].
-  - intros l ws w _ _ Hw [Hp Hs]. split.
-    + cbn. rewrite panicked_fold_write. exact Hp.
-    + cbn. apply sw_write_nl_state. assumption.
+  - intros l ws w [_ Hw] [Hp Hs]. destruct (out_of_writes l ws w) as (H1 & _ & H3). split.
+    + rewrite H3. exact Hp.
+    + rewrite H1. apply sw_write_nl_state. assumption.
   - intros l [Hp Hs]. unfold out_separate, sw_separate. cbn.
     split.
     + rewrite Hp. cbn. apply N.eqb_neq. assumption.
     + destruct (sw_state (l_out l) <? 2) eqn:E; cbn; [discriminate|assumption].
   - intros l s _ H. exact H.
   - intros. apply ok_logf. assumption.
-  - apply summary_line_safe.
-  - apply summary_line_ends.
-  - right. assumption.
+  - intros. split; [apply summary_line_safe|apply summary_line_ends].
+  - eapply Forall_impl; [|exact Hwf]. intros ev Hev. apply ev_ok_GL0. right. exact Hev.
   - split; [reflexivity|discriminate].
 Qed.
 
